@@ -48,6 +48,11 @@ def lowerObs (o : SyncOpt) (before after : List Snap) (view : List VEnt) : List 
       | _, _ => le
     else le
 
+/-- the paths to which the exception was applied (seen as plain files because their inode was kept) -/
+def obsPlain (o : SyncOpt) (before after : List Snap) (view : List VEnt) : List Path :=
+  ((lowerOf o before).zip (lowerObs o before after view)).filterMap fun (a, b) =>
+    if a.linkname != b.linkname then some a.path else none
+
 /-- change events the receiver computes (the listing of the destination as observed, see `lowerObs`) -/
 def syncEvents (o : SyncOpt) (before after : List Snap) (view : List VEnt) : List BEv :=
   diffB o.differNone (lowerObs o before after view) (view.map fun v => applyRFilter o v.st)
@@ -105,8 +110,10 @@ def entryMatches (o : SyncOpt) (evs : List BEv) (before after : List Snap) (view
         -- bytes: those of the group leader
         match findV view (groupOf v) with
         | some l =>
-          -- an entry the transfer did not touch keeps its bytes (its identity equals the source's: presumed equal)
-          let keptAsIs := !created && (match findSnap before v.st.path with | some b => b.ino = a.ino && b.sha = a.sha | none => false)
+          -- the hard-link exception: an entry that was compared as a plain file (see `lowerObs`) and found unchanged keeps
+          -- its inode and bytes
+          let keptAsIs := !created && (obsPlain o before after view).contains v.st.path &&
+            (match findSnap before v.st.path with | some b => b.ino = a.ino && b.sha = a.sha | none => false)
           if a.sha != l.sha && !keptAsIs then return ⟨false, "file bytes differ"⟩
         | none => return ⟨false, "link source not in the view"⟩
   if created && (s.isDir || (s.canRequestData && s.linkname = [])) then
